@@ -3,6 +3,14 @@
 import json, subprocess
 
 CHECKS = {
+ "C04": dict(level="fault_enumeration", design="§4 C04",
+   technique="runtime monitoring with fault injection: crash after every mutating storage request of a commit (transaction, merge-on-open, vacuum), recovery opens compared with recorded before/after contents, bucket walk of current versions",
+   text="For each subject the number K of mutating requests is measured fault-free, then every k in 0..K is executed: the client dies right after its k-th PUT/DELETE, the connection is abandoned, and a read-only open, a read-write recovery open and a further read-only open of the frozen bucket must succeed and show exactly the old or the new contents, the same in all three, the new ones if the commit had been acknowledged. Enumeration over k is complete per subject; subjects are sampled.",
+   note="Crash model: whole-object atomic requests, prefix of the client's mutation sequence takes effect. Concurrent node PUTs of one flush make the prefix a sample of 'k of them landed'. Garbage nodes are allowed."),
+ "C14": dict(level="fault_enumeration", design="§4 C14",
+   technique="runtime monitoring with fault injection: a failing (once/persistent) or deadline-blocked request at every request position of a target statement; result compared with the fault-free run; liveness watchdog on logical quiescence; recovery probes",
+   text="For 13 kinds of target statement (opens with merge, scans, lookups, writes, commits, refresh, changes, vacuum) every request position up to 60 is faulted with a single error, a persistent error and (3 positions) a request blocking until the connection's deadline; each run must give an error or exactly the fault-free result, acknowledged writes must be visible to a fresh open afterwards, the process must survive, the statement must return, and the same and a new connection must work again after the fault clears.",
+   note="Transport fault = non-retryable request error; deadline fault = request blocks until the context is done (1-2 s). Hang verdict is logical: no request in flight and none for 30 s. NoSuchKey is not treated as a fault."),
  "C09": dict(level="exploration", design="§4 C09",
    technique="runtime monitoring: dump equality across vacuum (same/fresh/historic opens), independent bucket walk of every retained version, crash injection after every mutating request of sampled vacuums, virtual clock through hook H3",
    text="Histories built to share content-addressed nodes between old and new versions (insert-then-delete, revert, delete-all, earlier vacuums, merges) are vacuumed with cutoffs before/at/between/after the version stamps and delete times; rows through the same connection, a fresh connection and every earlier version created at or after the cutoff must be unchanged, every version still listed must reach only existing decodable nodes, later writes must work; one case in three repeats the vacuum with a crash after every mutating request and checks the recovery opens.",
